@@ -410,6 +410,50 @@ func runC11(c *Ctx) {
 				p, isPhi := x.(*ssa.Phi)
 				return isPhi && len(p.Edges) > 1 && p.Parent() == fn
 			}, fn)
+			// the same question through helpers (l.wireSeconds()): more than one source, unless
+			// the extra ones are the saturation constants of the full unsigned width
+			if !hasPhi {
+				if ls, complete := w.sources(stripIntConv(v), in, nil); complete {
+					width := typeBits(v.Type())
+					var keys []string
+					for i := range ls {
+						l := &ls[i]
+						if k, isK := constInt(l.val); isK && len(l.sel) == 0 && l.mem == nil {
+							// allowed: 0 under "x < 0", 2^width-1 under "2^width-1 < x"
+							okSat := false
+							for _, f := range l.facts {
+								if f.Op != "<" || !f.Truth {
+									continue
+								}
+								if k == 0 {
+									if ky, isY := constInt(f.Y); isY && ky == 0 {
+										okSat = true
+									}
+								}
+								if width > 0 && width < 63 && k == int64(1)<<uint(width)-1 {
+									if kx, isX := constInt(f.X); isX && kx == k {
+										okSat = true
+									}
+								}
+							}
+							if okSat {
+								continue
+							}
+						}
+						keys = append(keys, w.key(l.val))
+					}
+					sort.Strings(keys)
+					n := 0
+					for i, k := range keys {
+						if i == 0 || keys[i-1] != k {
+							n++
+						}
+					}
+					if n > 1 {
+						hasPhi = true
+					}
+				}
+			}
 			fromRecv := w.dependsOn(v, func(x ssa.Value) bool { return x == ssa.Value(fn.Params[0]) }, fn)
 			if !hasPhi && fromRecv {
 				c.OK("C11.4", fname(fn), "encoded integer", w.instrPos(in), "pure conversion of the receiver's value")
